@@ -719,6 +719,62 @@ impl FieldsExt for syn::Fields {
     }
 }
 
+/// Verification hooks (compiled only with the `verif_hooks` feature; unused by the macro itself).
+#[cfg(feature = "verif_hooks")]
+pub(crate) mod verif_hooks {
+    use super::{FmtAttribute, Parameter, Placeholder};
+
+    /// `(argument, has_modifiers, trait_name)` of every [`Placeholder`] of the literal `s`.
+    pub(crate) fn placeholders(s: &str) -> Vec<(Result<usize, String>, bool, &'static str)> {
+        Placeholder::parse_fmt_string(s)
+            .into_iter()
+            .map(|p| {
+                let arg = match p.arg {
+                    Parameter::Positional(i) => Ok(i),
+                    Parameter::Named(n) => Err(n),
+                };
+                (arg, p.has_modifiers, p.trait_name)
+            })
+            .collect()
+    }
+
+    /// Parses `tokens` as a [`FmtAttribute`] and reports its arguments
+    /// (`(alias, expression tokens, is single ident)`) and its `transparent_call()`.
+    #[allow(clippy::type_complexity)]
+    pub(crate) fn fmt_attribute(
+        tokens: proc_macro2::TokenStream,
+    ) -> syn::Result<(
+        String,
+        Vec<(Option<String>, String, bool)>,
+        Option<(String, String)>,
+        String,
+    )> {
+        use quote::ToTokens as _;
+
+        let attr = syn::parse2::<FmtAttribute>(tokens)?;
+        let args = attr
+            .args
+            .iter()
+            .map(|a| {
+                (
+                    a.alias().map(ToString::to_string),
+                    a.expr.to_token_stream().to_string(),
+                    a.expr.ident().is_some(),
+                )
+            })
+            .collect();
+        let transparent = attr
+            .transparent_call()
+            .map(|(e, t)| (e.to_token_stream().to_string(), t.to_string()));
+        Ok((
+            attr.lit.value(),
+            args,
+            transparent,
+            attr.to_token_stream().to_string(),
+        ))
+    }
+}
+
 #[cfg(test)]
 mod fmt_attribute_spec {
     use itertools::Itertools as _;
